@@ -32,14 +32,14 @@ with warnings.catch_warnings():
 
     class LegacyPair(p.Expression):
         """Pure legacy node: init-args protocol only."""
-        init_arg_names = ("a", "b")
+        init_arg_names = ("first", "second")
 
-        def __init__(self, a, b):
-            self.a = a
-            self.b = b
+        def __init__(self, first, second):
+            self.first = first
+            self.second = second
 
         def __getinitargs__(self):
-            return (self.a, self.b)
+            return (self.first, self.second)
 
         mapper_method = "map_legacy_pair"
 
